@@ -19,6 +19,27 @@ CLAIMED = {
         note=TB + " Costs containing NaN are excluded (hypothesis costs_ok); negative slice bounds (n > size) are outside the translated subset.",
         technique="Coq proof over regenerated Gallina (T-core) + bridge lemmas + vm_compute correspondence",
         design="§7 C16"),
+    "C13": dict(
+        text=("Machine-checked proof of the domain laws. For the scalar kinds the theorems are about the methods REGENERATED from models.py "
+              "(ContinuousVariable/DiscreteVariable/PermutationVariable correct, decode, get_bounds, validators): correct maps every non-NaN "
+              "input (incl. +-inf) into the domain, fixes members, is idempotent; decode of a corrected value is the declared choice / the label "
+              "order of the corrected permutation; for permutations the laws hold for EVERY valid numpy argsort (ties broken any way). "
+              "Multi-variables, random sampling and multi-variable validators: same laws proved on the hand model (Vars.v), tied to the code by "
+              "vm_compute correspondence on generated definitions and values (boundary, +-1ulp, huge, inf, numpy scalars, ties)."),
+        note=TB + " Inputs to correct are non-NaN; bounds finite; choice lists non-empty; items distinct. numpy's uniform/choice/permutation "
+                  "ranges are the hypothesis draw_ok of the sampling theorem (sampled differentially).",
+        technique="Coq proof over regenerated Gallina (T-core) + hand model; bridge lemmas; vm_compute correspondence",
+        design="§7 C13"),
+    "C14": dict(
+        text=("Machine-checked proof on the TaskModel part of Vars.v for every variable list: dimension = sum of sizes = number of flattened "
+              "variables = number of bound pairs; bounds are the owning variables' own bounds and ordered; corrected solutions have one "
+              "coordinate per dimension, coordinate-wise by the owning variable's rule, and land in the search space; transform_solution has one "
+              "entry per variable keyed by name holding the decoded slice. The model is hand-written and tied to models.Task by vm_compute "
+              "correspondence on random tasks (all kinds, sizes 1-4 incl. size-1 multi-variables, single permutations); per-variable rules are "
+              "regenerated and bridged (VarsBridge)."),
+        note=TB + " Distinct variable names; permutation variables alone in a task; no NaN inputs.",
+        technique="Coq proof on hand model + vm_compute correspondence against models.Task; per-variable rules regenerated (T-core)",
+        design="§7 C14"),
 }
 
 PENDING_REASON = "check not built yet in this round (work in progress, see DESIGN.md §11 build order); not claimed until its check exists"
